@@ -128,11 +128,12 @@ theorem truncate_additive_simple (C : FieldCtx F) (t : TypeSpec) (lw : Nat) (a b
     simp only [truncateWith, hab, ne_eq, not_true_eq_false, if_false]
     simp [vadd, List.take_zipWith]
 
-/-- full-strength statement (not yet proved): for every type instance, every admissible number of
-    aggregators and proofs, every XOF, context, nonce, key and sharding randomness for which no
-    derived query randomness is refused, every report of an in-range measurement is accepted by
-    every aggregator and the output shares add up to the truncation of the encoded measurement -/
-def prio3_e2e_statement : Prop :=
+/-- the first formulation of end-to-end correctness, kept for the record: it is NOT the theorem.  With an
+    arbitrary `FieldCtx` (wrong `half` or roots) `query` still answers but `decide` rejects; validity is required
+    only at `jr = []`, which is vacuous for the types with joint randomness; invertibility of the number of
+    aggregators and `WellFormed` are missing.  The corrected statement is proved:
+    `Props.C01.prio3_e2e` in `Props/C01E2E.lean` -/
+def prio3_e2e_first_formulation : Prop :=
   ∀ (F : Type) [Field F] [BEq F] [LawfulBEq F] (C : FieldCtx F) (cfg : Cfg) (cv : Conv F) (xof : Xof) (sumLW : Nat)
     (key ctx nonce random : Prio.Prio3.Bytes) (encoded : List F) (out : ShardOut F),
     1 ≤ cfg.numAgg → cfg.numAgg ≤ 254 → 1 ≤ cfg.numProofs → cfg.numProofs ≤ 255 →
